@@ -209,7 +209,15 @@ func stressProg(s *StressCase) *ProgCase {
 
 func checkC03Stress(s *StressCase) *Outcome {
 	c := stressProg(s)
-	r := fullRun(c)
+	var r *CaseRun
+	if s.N > astModeFrom {
+		r = refRun(c)
+		if r.RefErr == nil {
+			runBackendsAST(c, r, run.AllBackends)
+		}
+	} else {
+		r = fullRun(c)
+	}
 	if r.RefErr != nil {
 		return &Outcome{Err: fmt.Errorf("harness: stress program rejected by the reference: %v", r.RefErr)}
 	}
@@ -242,7 +250,10 @@ func eachStress(extraSizes []int) func(yield func(*StressCase) bool) {
 			for _, n := range extraSizes {
 				// the capacity classes (tens of thousands of members) only make sense for
 				// wide literals; deep nests of that size would only measure recursion depth
-				if strings.HasPrefix(k, "wide") || n <= 2000 {
+				// sizes above astModeFrom are compiled from the tree, not from source text
+				// (the lexer copies the rest of the input for every token, so a 200 KB
+				// source takes about a minute to lex)
+				if n <= 2000 || strings.HasPrefix(k, "wide") {
 					sizes = append(sizes, n)
 				}
 			}
